@@ -171,7 +171,7 @@ func runC07(r *an.Run) {
 		})
 
 	r.Obl("memory-follows-disk", "PATH",
-		"CommitCircuits reports Adds and keeps the inserted circuits only after the batch write succeeded; on failure it deletes from pending exactly the circuits this call inserted (the rolled-back list is appended only for circuits that were not already pending); OpenCircuits updates opened/hashIndex only after the keystone write succeeded; DeleteCircuits restores every removed circuit when the delete fails",
+		"CommitCircuits reports Adds and keeps the inserted circuits only after the batch write succeeded; on failure it deletes from pending exactly the circuits this call inserted (the rolled-back list is appended only for circuits that were not already pending); OpenCircuits updates opened/hashIndex only after the keystone write succeeded, rejects duplicates (every ErrDuplicateKeystone return) before the write and admits a keystone's circuit to the batch only where the lookup of the keystone's outgoing key in `opened` answered false (the further freshness conditions of repair d742950 are open-circuits-batch-binds-fresh-keys); DeleteCircuits restores every removed circuit when the delete fails",
 		"after a restart the switch must know exactly the durably recorded circuits; a rollback that removes circuits which are still on disk makes the same HTLC both failed back and forwarded", 10,
 		func(o *an.Obl) {
 			f := p.Func(hs + "circuitMap.CommitCircuits")
@@ -251,24 +251,28 @@ func runC07(r *an.Run) {
 			if need(o, g, "kvdb.Update", upd, 1) && need(o, g, "in-memory opening", memWrites, 3) {
 				mustPass(o, g, "keystone write", upd, an.OkErrNil, memWrites)
 			}
-			// duplicate keystones are rejected before the write
+			// duplicate keystones are rejected before the write: every
+			// ErrDuplicateKeystone return precedes it (since repair d742950 there
+			// are several: outgoing key open or used earlier in the batch,
+			// circuit bound otherwise), and a circuit is admitted to the batch
+			// only where `opened` has nothing under the keystone's outgoing key
 			for _, s := range upd {
-				dup := an.Fact{Desc: "no keystone with this outgoing key is open", Hold: nil}
-				_ = dup
 				rets := g.Returns()
 				nDup := 0
 				for _, ret := range rets {
 					if rs, isR := ret.Node.(*ast.ReturnStmt); isR && len(rs.Results) == 1 && strings.HasSuffix(g.Canon(rs.Results[0]), "ErrDuplicateKeystone") {
 						nDup++
+						o.Site("duplicate keystone rejected at %s", ret.Where())
 						if !g.Graph().Reach(g.Graph().Entry, nil, map[*an.FlowVertex]bool{s.V: true})[ret.V] {
 							o.FailAt(g.ID+"#dup-after-write", ret.Where(), "the duplicate keystone check happens after the write")
 						}
 					}
 				}
-				if nDup != 1 {
-					o.FailAt(g.ID+"#dup-check", g.Where(g.Body.Pos()), "expected one ErrDuplicateKeystone rejection, found %d", nDup)
+				if nDup < 1 {
+					o.FailAt(g.ID+"#dup-check", g.Where(g.Body.Pos()), "expected at least one ErrDuplicateKeystone rejection before the write, found %d", nDup)
 				}
 			}
+			c07f5OpenedKeyFree(o, g)
 			d := p.Func(hs + "circuitMap.DeleteCircuits")
 			dBatch := d.Calls(kvUpdate, false)
 			var restore []an.Site
